@@ -2,8 +2,8 @@
    Model: Shm/Manager.v (dataset.Manager + the two halves of every Disk job + the serve loop's error
    mapping, with the `fix:` commit that releases the pageout lock when nothing is evictable).
    A history is ANY list of ops: allocate / client write / finish-write / get / finish-read / purge from
-   any number of clients, interleaved in any way with the io half and the callback half of every
-   page-out and page-in job, successful or failed (`JobIo j fault`).
+   any number of clients, interleaved in any way with the steps of every page-out job (attach+write the file, unlink the name,
+   callback) and page-in job (create+read back, callback), successful or failed (`JobIo j fault`).
    `exec (init cap) ops` is the state reached;  `resident (dsets s)` is the total size of the datasets whose
    status is created / in_memory / paging_out / paged_in ("being written, readable, being paged out, being
    paged in");  `free s` is Manager.free_space.
@@ -81,32 +81,32 @@ Proof. exact accounting_refuted. Qed.
    granted; an allocation of 5 is refused, one of 4 waits *)
 Definition ex_ops : list op := [
   Add 1%N 2%N 1; Write 1%N [1;2]%N; Close 1%N None; Add 2%N 2%N 2; Write 2%N [3;4]%N; Close 2%N None;
-  Add 3%N 2%N 3; JobIo 0%N false; Add 3%N 2%N 4; JobCb 0%N; Add 3%N 2%N 5;
-  Get 2%N 6 [1%N]; JobIo 1%N false; JobCb 1%N; Get 2%N 7 [1%N]; JobIo 2%N false; Get 2%N 8 [1%N]; JobCb 2%N;
+  Add 3%N 2%N 3; JobIo 0%N false; Add 3%N 2%N 4; JobUnlink 0%N; JobCb 0%N; Add 3%N 2%N 5;
+  Get 2%N 6 [1%N]; JobIo 1%N false; JobUnlink 1%N; JobCb 1%N; Get 2%N 7 [1%N]; JobIo 2%N false; Get 2%N 8 [1%N]; JobCb 2%N;
   Get 2%N 9 [1%N]; ReadSeg 2%N; Add 4%N 5%N 10; Add 5%N 4%N 11 ].
 
 Example C08_accounting_partial_nonvacuous :
   race_free (init 4) ex_ops = true /\
-  (let s := exec (init 4) (firstn 16 ex_ops) in
+  (let s := exec (init 4) (firstn 18 ex_ops) in
    free s = 0 /\ resident (dsets s) = 4 /\ List.length (jobs s) = 1%nat /\
    map (fun kd => (fst kd, d_status (snd kd))) (dsets s) = [(1%N, OnDisk); (2%N, PagedIn); (3%N, Created)]) /\
   map fst (fst (run (init 4) ex_ops)) =
     [(RGranted 1%N, 2); (RWrote true, 2); (ROk, 2); (RGranted 2%N, 0); (RWrote true, 0); (ROk, 0);
-     (RErr "wait", 0); (RJob true, 0); (RErr "wait", 0); (RJob true, 2); (RGranted 3%N, 0);
-     (RErr "wait", 0); (RJob true, 0); (RJob true, 2); (RErr "wait", 0); (RJob true, 0); (RErr "wait", 0);
+     (RErr "wait", 0); (RJob true, 0); (RErr "wait", 0); (RJob true, 0); (RJob true, 2); (RGranted 3%N, 0);
+     (RErr "wait", 0); (RJob true, 0); (RJob true, 0); (RJob true, 2); (RErr "wait", 0); (RJob true, 0); (RErr "wait", 0);
      (RJob true, 0); (RGot 2%N 2 1, 0); (RBytes (Some [3%N; 4%N]), 0); (RErr "capacity exceeded", 0); (RErr "wait", 0)].
 Proof. vm_compute. repeat split; reflexivity. Qed.
 
 Example C08_every_other_step_keeps_accounting_nonvacuous :
-  Inv (exec (init 4) (firstn 16 ex_ops)) /\ races (exec (init 4) (firstn 17 ex_ops)) (JobCb 2%N) = false /\
-  snd (step (exec (init 4) (firstn 17 ex_ops)) (JobCb 2%N)) = RJob true.
+  Inv (exec (init 4) (firstn 18 ex_ops)) /\ races (exec (init 4) (firstn 19 ex_ops)) (JobCb 2%N) = false /\
+  snd (step (exec (init 4) (firstn 19 ex_ops)) (JobCb 2%N)) = RJob true.
 Proof.
   split; [|split; vm_compute; reflexivity].
   apply run_inv; [apply inv_init; discriminate|vm_compute; reflexivity].
 Qed.
 
 Example C08_free_space_reported_nonvacuous :
-  nth_error (fst (run (init 4) ex_ops)) 14 = Some (RErr "wait", 0, [(PageIn, 2%N, 2%N)]) /\
+  nth_error (fst (run (init 4) ex_ops)) 16 = Some (RErr "wait", 0, [(PageIn, 2%N, 2%N)]) /\
   nth_error (fst (run (init 4) ex_ops)) 6 = Some (RErr "wait", 0, [(PageOut, 2%N, 0%N)]).
 Proof. split; vm_compute; reflexivity. Qed.
 
@@ -114,14 +114,14 @@ Example C08_never_granted_early_partial_nonvacuous :
   race_free (init 4) (firstn 8 ex_ops) = true /\
   (let s := exec (init 4) (firstn 8 ex_ops) in
    resident (dsets s) = 4 /\ snd (step s (Add 3%N 2%N 4)) = RErr "wait" /\ snd (step s (Add 4%N 5%N 4)) = RErr "capacity exceeded") /\
-  (let s := exec (init 4) (firstn 10 ex_ops) in
+  (let s := exec (init 4) (firstn 11 ex_ops) in
    resident (dsets s) = 2 /\ snd (step s (Add 3%N 2%N 5)) = RGranted 3%N /\ snd (step s (Add 3%N 3%N 5)) = RErr "wait").
 Proof. vm_compute. repeat split; reflexivity. Qed.
 
 (* the witness is the history of the finding, and it is exactly the excluded race *)
 Example C08_accounting_refuted_witness :
-  race_free (init 10) readd_witness = false /\ race_free (init 10) (firstn 8 readd_witness) = true /\
-  races (exec (init 10) (firstn 8 readd_witness)) (JobCb 0%N) = true /\
+  race_free (init 10) readd_witness = false /\ race_free (init 10) (firstn 9 readd_witness) = true /\
+  races (exec (init 10) (firstn 9 readd_witness)) (JobCb 0%N) = true /\
   (let s := exec (init 10) readd_witness in free s = 10 /\ resident (dsets s) = 6).
 Proof. vm_compute. repeat split; reflexivity. Qed.
 
